@@ -131,7 +131,8 @@ Section Generic.
     pose proof (Hstep apend Hei) as Hs. pose proof (Hpos apend Hei) as Hp.
     rewrite He3, Hb3.
     destruct (Z.eqb_spec erem 0) as [E|E]; destruct (Z.eqb_spec brem 0) as [E'|E'];
-      repeat split; try rewrite Hs; try lia.
+      repeat split; try rewrite Hs; try lia;
+      intros Hl; (destruct (Z.eq_dec abegin apend) as [Q|Q]; [rewrite Q in *; lia | lia]).
   Qed.
 
   Lemma init_abegin : r_abegin r = abegin.
@@ -214,25 +215,25 @@ Section Generic.
     Hypothesis Hst : forall i, a <= i -> i + 1 < r_aend rr -> B (i + 1) = B i + L i.
 
     Lemma tiles_loop : forall n i off len,
-      Z.of_nat (S n) = r_aend rr - i -> a <= i -> 0 <= off -> 0 < len ->
+      Z.of_nat n = r_aend rr - i -> i < r_aend rr -> a <= i -> 0 <= off -> 0 < len ->
       (if i + 1 =? r_aend rr then B i + off + len = stop /\ off + len <= L i
        else off + len = L i) ->
-      exists l, all_parts_from L rr (S n) (mkSub i off len) = Some l /\ l <> [] /\
+      exists l, all_parts_from L rr n (mkSub i off len) = Some l /\ l <> [] /\
                 tiles B L (B i + off) stop i l.
     Proof.
       facts.
-      induction n as [|n IH]; intros i off len Hn Hai Hof Hln Hgood.
-      - cbn [all_parts_from s_i s_len].
-        destruct (Z.eqb_spec i (r_aend rr)) as [E|E]; [lia|].
-        rewrite wrap_small by lia.
-        destruct (Z.eqb_spec (i + 1) (r_aend rr)) as [E1|E1]; [|lia].
+      induction n as [|n IH]; intros i off len Hn Hlt Hai Hof Hln Hgood; [lia|].
+      cbn [all_parts_from s_i s_len].
+      destruct (Z.eqb_spec i (r_aend rr)) as [E|E]; [lia|].
+      rewrite wrap_small by lia.
+      destruct (Z.eqb_spec (i + 1) (r_aend rr)) as [E1|E1].
+      - assert (R : all_parts_from L rr n (mkSub (i + 1) 0 len) = Some []).
+        { destruct n; cbn [all_parts_from s_i];
+            (destruct (Z.eqb_spec (i + 1) (r_aend rr)); [reflexivity|contradiction]). }
+        rewrite R.
         exists [mkSub i off len]. split; [reflexivity|]. split; [discriminate|].
         cbn [tiles s_i s_off s_len]. repeat split; lia.
-      - cbn [all_parts_from s_i s_len].
-        destruct (Z.eqb_spec i (r_aend rr)) as [E|E]; [lia|].
-        rewrite wrap_small by lia.
-        destruct (Z.eqb_spec (i + 1) (r_aend rr)) as [E1|E1]; [lia|].
-        specialize (Hpf (i + 1)). cbv zeta in Hpf.
+      - specialize (Hpf (i + 1)). cbv zeta in Hpf.
         set (len' := if sub_nonempty (r_postface rr) && (s_i (r_postface rr) =? i + 1)
                      then s_len (r_postface rr) else L (i + 1)) in *.
         destruct Hpf as [Hl1 Hl2]; [lia|].
@@ -255,27 +256,23 @@ Section Generic.
     facts. intros Hpos_len.
     destruct geom as (G1 & G2 & G3 & G4 & G5 & G6). specialize (G6 Hpos_len).
     rewrite init_abegin. unfold all_parts.
-    assert (Hfuel : exists n, Z.to_nat (r_aend r - abegin) = S n /\ Z.of_nat (S n) = r_aend r - abegin).
-    { rewrite init_aend. exists (Z.to_nat (aend - abegin - 1)). lia. }
-    destruct Hfuel as (n & Hn1 & Hn2). rewrite Hn1.
     assert (Hstep' : forall i, abegin <= i -> i + 1 < r_aend r -> B (i + 1) = B i + L i).
     { rewrite init_aend. intros i Hi1 Hi2. apply Hstep. lia. }
     pose proof (Hstep abegin Hbi) as Hsa. pose proof (Hpos abegin Hbi) as Hpa.
-    replace offset with (B abegin + brem) at 2 by lia.
+    cut (exists l, all_parts_from L r (Z.to_nat (r_aend r - abegin)) (r_first r) = Some l /\
+                   l <> [] /\ tiles B L (B abegin + brem) eoff abegin l);
+      [rewrite Hb1; intros X; exact X|].
     destruct (Z.eq_dec (abegin + 1) aend) as [S|S].
     - (* one block *)
       destruct init_small as (F & _); [rewrite wrap_small by lia; exact S|].
       rewrite F.
-      apply (tiles_loop r eoff abegin); try assumption; try lia.
-      + rewrite init_aend; lia.
-      + rewrite init_aend. intros i' Hi'. lia.
-      + rewrite init_aend. destruct (Z.eqb_spec (abegin + 1) aend) as [_|N]; [|contradiction].
-        rewrite <- S in G4. lia.
+      apply (tiles_loop r eoff abegin); try assumption; try lia; try (rewrite init_aend; lia).
+      rewrite init_aend. destruct (Z.eqb_spec (abegin + 1) aend) as [_|N]; [|contradiction].
+      rewrite <- S in G4. lia.
     - (* several blocks *)
       destruct init_big as (_ & _ & F & P); [rewrite wrap_small by lia; exact S|].
       rewrite F.
-      apply (tiles_loop r eoff abegin); try assumption; try lia.
-      + rewrite init_aend; lia.
+      apply (tiles_loop r eoff abegin); try assumption; try lia; try (rewrite init_aend; lia).
       + rewrite init_aend, P. intros i' Hi'. cbv zeta.
         pose proof (Hstep apend Hei) as Hs. pose proof (Hpos apend Hei) as Hp.
         rewrite He3 in *.
